@@ -21,7 +21,7 @@ RULE = ("case = random schema whose fields take arguments of every input type (b
         "=> data null, non-empty errors, ZERO resolver calls, every offending variable named or located by an error; "
         "must-accept => the argument dicts recorded by resolvers equal the reference's (absent vs null vs default, list "
         "wrapping at every level, input-object defaults) and data equals the reference; either => both accepted, value "
-        "pinned if accepted. non-trivial = assignment with >=1 variable whose value is a container or hostile; distinct by "
+        "pinned if accepted; the very same variables object sent a second time is answered identically. non-trivial = assignment with >=1 variable whose value is a container or hostile; distinct by "
         "(SDL, document, variables)") % (DOCS_PER_SCHEMA, ASSIGNMENTS)
 ASSUMPTIONS = ["variable default values are valid constants (ill-typed defaults are validation matters: C07)"]
 ANCHORS = [
